@@ -178,7 +178,7 @@ func check(seq []int, local int) func(any) (string, string) {
 		if r.SetupErr != "" {
 			return "harness setup failed: " + r.SetupErr, name
 		}
-		concurrent := local >= 4
+		concurrent := local >= 4 && local <= 6
 		// the local call's own traffic shows up at the peer too: filter it out
 		var syncGot, asyncGot []string
 		for _, d := range r.PeerGot {
@@ -249,6 +249,14 @@ func check(seq []int, local int) func(any) (string, string) {
 					if alive && e.oOpen && (r.LocalOK || r.LocalErr != "") {
 						return "channel reply delivered to a request that was not waiting for it (stale reply consumed)", fmt.Sprintf("%s: ok=%v err=%q", name, r.LocalOK, r.LocalErr)
 					}
+				case 7, 8:
+					// second request after a first one during which the sequence arrived
+					if alive && (local == 8 || e.oOpen) && (r.LocalOK || r.LocalErr != "") {
+						return "reply delivered to a request that was not waiting for it (reply left over from an earlier request consumed)", fmt.Sprintf("%s: ok=%v err=%q", name, r.LocalOK, r.LocalErr)
+					}
+					if !r.FirstDone {
+						return "local call did not return", name + " (first request)"
+					}
 				case 3:
 					if alive && !r.LocalOK {
 						return "OpenChannel failed on a healthy connection", fmt.Sprintf("%s: err=%q", name, r.LocalErr)
@@ -313,6 +321,24 @@ func run(c *vf.Ctx) {
 		}
 	}
 	gen(nil, depth0)
+	// two-request modes: sequences over the reply-related sub-alphabet, up to length 4
+	sub := []int{ssh.VerifC36SuccessO, ssh.VerifC36FailureReplyO, ssh.VerifC36GlobalSuccess, ssh.VerifC36GlobalFailure, ssh.VerifC36DataO, ssh.VerifC36CloseO, ssh.VerifC36Ping}
+	var gen2 func(prefix []int, d int)
+	gen2 = func(prefix []int, d int) {
+		add(prefix, 7, 0, "two requests (channel), reply-alphabet sequences")
+		add(prefix, 8, 0, "two requests (global), reply-alphabet sequences")
+		if len(prefix) <= depth1 {
+			add(prefix, 7, 1, "two requests bound1")
+			add(prefix, 8, 1, "two requests bound1")
+		}
+		if d == 0 {
+			return
+		}
+		for _, k := range sub {
+			gen2(append(prefix, k), d-1)
+		}
+	}
+	gen2(nil, 4)
 	// no packets at all, only local calls
 	eb := 1
 	if c.Thorough {
